@@ -105,6 +105,8 @@ func runC02(p *core.Program, r *core.Report) {
 		{"sort", "Sort re-inserts every entry"}, {"index", "bucket indices non-negative"}, {"sentinel", "the header of the order ring is never taken for an entry (Put into an empty map creates an entry)"}} {
 		r.Rule("C02.backing."+sfx.s, "the linked maps that back MapValue/IntMapValue keep every decoded entry retrievable: "+sfx.doc+" (C09's rule table on those two types)", 2)
 	}
+	r.Rule("C02.verbatim", "a value decoder stores what it read: no decoded text is passed through a text-transforming function on its way into the value", 15)
+	verbatimRule(p, r, "C02.verbatim", []string{"lang/value"})
 	r.Rule("C02.width", "a payload written without a length and read back with a fixed one has that width wherever it is stored (Write emits exactly what Read consumes)", 1)
 	rawWidthInvariant(p, r, "C02.width", "lang/value")
 	r.Rule("C02.in-place", "decoders store what they read into the container itself (no decode into a range copy, no append after a full-length make)", 10)
